@@ -151,13 +151,15 @@ func K4() *Entry {
 		F("Opaque", Sc(ir.Bytes), Custom("CustomA")), F("OpaqueValue", Sc(ir.Bytes), Custom("CustomA"), NonNull()),
 		F("Switches", Sc(ir.Bool), Rep(), Custom("CustomB")),
 		F("Joined"), F("Plain"),
+		// custom type names with underscores keep them in the default suffix (only dots and slashes go)
+		F("Under", Sc(ir.Bytes), Custom("Custom_C")), F("UnderPath"),
 	)
 	WithOneofs(m, "Either")
 	f := file("k4", m)
 	AutoComments(f)
 	c := BaseConfig("Casts")
 	// custom types through configuration: one with the default suffix, one with a suffixes entry
-	c.CustomTypes = map[string]string{"Casts.Joined": "verif/types.Joined", "Casts.Plain": "verif/types.Labels"}
+	c.CustomTypes = map[string]string{"Casts.Joined": "verif/types.Joined", "Casts.Plain": "verif/types.Labels", "Casts.UnderPath": "verif/my_lib/api_v2.Owner_Ref"}
 	c.Suffixes = map[string]string{"CustomB": "Switch", "verif/types.Labels": "LabelSet"}
 	return &Entry{Name: "k4", File: f, Cfg: c, Tags: []string{"cast", "custom", "oneof"}}
 }
